@@ -20,9 +20,10 @@ import json,sys,os
 id,s,a,m=sys.argv[1:5]
 p=f'/verif/benign/{id}/meta.json'
 meta=json.load(open(p)) if os.path.exists(p) else {"id":id}
-meta["quick_checks_silent"]=sorted(set(s.split()))
-meta["quick_checks_alarm"]=sorted(set(a.split()))
-meta["quick_checks_machinery"]=sorted(set(m.split()))
+# the latest outcome of a check replaces its earlier one; checks not run this time keep theirs
+ran=set(s.split())|set(a.split())|set(m.split())
+for k,v in (("quick_checks_silent",s),("quick_checks_alarm",a),("quick_checks_machinery",m)):
+    meta[k]=sorted((set(meta.get(k,[]))-ran)|set(v.split()))
 json.dump(meta,open(p,'w'),indent=1)
 PY
 echo "[$ID] silent:$SILENT | alarm:$ALARM | machinery:$MACH"
